@@ -1,12 +1,12 @@
 import AnonModel.Gen.Consts
 import AnonModel.Model.Ident
-import AnonModel.Model.Query
-import AnonModel.Model.Tails
 /-!
-# The constants and regex literals the models were written for are the ones in `/repo` now
+# C20: the regex literals and limits the identifier model was written for are the ones in `/repo` now
 
-`Gen/Consts.lean` is regenerated from the sources on every run; these equalities are the tie between
-the hand-transcribed recognisers / constants and the literals in the code (C16, C19, C20).
+`Gen/Consts.lean` is regenerated from the sources on every run; these equalities tie the hand-transcribed
+recognisers of `Model/Ident.lean` to the literals in `utils/validation.rs`. A change of a literal breaks the
+equality even when the language is unchanged: the check then searches for a string the model and the code
+classify differently (the c20 family varies every position of every form over all of ASCII).
 -/
 namespace AnonModel.GenConsts
 open AnonModel.Gen
@@ -22,14 +22,5 @@ theorem C20_regex_literals_unchanged :
 
 /-- C20: `MAX_ATTRIBUTES_COUNT` -/
 theorem C20_max_attributes_unchanged : maxAttributesCount = Ident.maxAttributesCount := by decide
-
-/-- C06/C16: the internal-tag pattern of `services/verifier.rs` -/
-theorem C16_internal_tag_literal_unchanged : re_INTERNAL_TAG_MATCHER = "^attr::([^:]+)::(value|marker)$" := by decide
-
-/-- C16: `Credential::QUALIFIABLE_TAGS` -/
-theorem C16_qualifiable_tags_unchanged : qualifiableTags = Query.qualifiableTags := by decide
-
-/-- C19: two-byte version tag `[0, 2]` -/
-theorem C19_version_tag_unchanged : tailsBlobTagSz = 2 ∧ tailsVersionTag = [0, 2] := by decide
 
 end AnonModel.GenConsts
